@@ -10,7 +10,11 @@
 (***************************************************************************)
 EXTENDS DataModel
 
-ResetBlock(b) == [b EXCEPT !.ov = [a \in (IF b.kind = "seq" THEN b.start..(b.start + b.size - 1) ELSE b.keys) |-> b.zero]]
+ResetBlock(b) ==
+  IF b.def = b.zero
+  THEN [b EXCEPT !.ov = [a \in DOMAIN b.ov |-> b.zero]]      \* (cells without an override already hold the default: a 65536-cell
+                                                              \*  block costs nothing here)
+  ELSE [b EXCEPT !.ov = [a \in (IF b.kind = "seq" THEN b.start..(b.start + b.size - 1) ELSE b.keys) |-> b.zero]]
    \* reset: every populated cell returns to the block's type default (0 / False); extent unchanged
 
 NoSuch == "NoSuchSlave"
